@@ -100,6 +100,24 @@ fn round_trip<const N: usize>(case: &Case, obs: &mut Obs) -> PropResult {
 	}
 	let r = quill::tiny_v2::read::<N, Ns>(t1.as_bytes()).map_err(|e| format!("reading the written text failed: {e:#}\n{t1}"))?;
 	let back = from_quill(&r).map_err(|e| format!("read result inconsistent: {e:#}\n{t1}"))?;
+	// the namespace check callers use after reading: holds for the namespaces written, fails for any other list
+	{
+		let names: Vec<&str> = m.ns.iter().map(|s| s.as_str()).collect();
+		let right: [&str; N] = names.clone().try_into().map_err(|_| "harness: namespace count".to_string())?;
+		if let Err(e) = r.info.namespaces.check_that(right) {
+			return Err(format!("check_that({right:?}) fails on the set read back: {e:#}"));
+		}
+		let mut wrong = right;
+		wrong.swap(0, N - 1);
+		if r.info.namespaces.check_that(wrong).is_ok() {
+			return Err(format!("check_that({wrong:?}) holds on a set whose namespaces are {right:?}"));
+		}
+		let mut wrong2 = right;
+		wrong2[N - 1] = "somethingElse";
+		if r.info.namespaces.check_that(wrong2).is_ok() {
+			return Err(format!("check_that({wrong2:?}) holds on a set whose namespaces are {right:?}"));
+		}
+	}
 	if r.javadoc != set_doc {
 		return Err(format!("read(write(M)) lost or changed the comment of the mapping set: {:?} became {:?}\ntext:\n{t1}", set_doc, r.javadoc));
 	}
